@@ -71,7 +71,7 @@ class C19(Prop):
     coq_files = ("Base", "C19_Consts", "C19_Model", "C19_Spec", "C19_Proofs", "C19_Props")
     models = ("C19_Model",)
     packages = {"cc": "internal/app/connectconformance"}
-    kinds = {"c19.expand": "cc", "c19.sharp": "cc"}
+    kinds = {"c19.expand": "cc", "c19.sharp": "cc", "c19.wiring": "cc"}
     consts = ("cc",)
     go_timeout = 1500
     rule = ("c19.expand: expandRequestData on single requests of the five padded request types x response-definition sizes "
@@ -105,7 +105,7 @@ class C19(Prop):
     technique = "Coq proof (fixed-point iteration on a step function, case split on varint classes); differential model-vs-Go; live RPC spec comparison"
 
     def nontrivial(self, case, res):
-        if case[0] == "c19.sharp":
+        if case[0] in ("c19.sharp", "c19.wiring"):
             return res.startswith("(") and "657272" not in res
         if "657272" in res:                      # (err tag)
             return "72616e6765" not in res       # anything but "range"
@@ -123,6 +123,9 @@ class C19(Prop):
         return None
 
     def describe(self, case, g, m):
+        if case[0] == "c19.wiring":
+            return ("a message-size suite run through the runner's own path (parseTestSuites, library, server_runner, reference "
+                    "peers) does not give the verdicts of the specification accepts(limit, size) = size <= limit")
         if case[0] == "c19.sharp":
             return "receive limit not sharp: live reference peers disagree with the specification accepts(limit, size) = size <= limit"
         return "expandRequestData differs from the proved model (exact padding or justified rejection, never a crash)"
@@ -267,6 +270,21 @@ class C19(Prop):
         for side, hv, p, c, st, f in cfgs:
             for off in offs + ((-2, 2, 10) if not quick else ()):
                 yield ["c19.sharp", side, off, hv, p, c, st, f]
+
+        # ---- the runner's own path: suite file -> parseTestSuites -> library -> server_runner -> peers ----
+        # case: (offs) httpVersion protocol compression streamType
+        if quick:
+            w = [(2, rng.choice([1, 2, 3]), rng.choice(COMPRESSIONS), 1),
+                 (2, rng.choice([1, 2, 3]), rng.choice(COMPRESSIONS), 2),
+                 (2, rng.choice([1, 2, 3]), 1, 3),
+                 (1, rng.choice([1, 3]), rng.choice(COMPRESSIONS), rng.choice([1, 3]))]
+            wo = [-1, 0, 1]
+        else:
+            w = [(2, p, c, st) for p in (1, 2, 3) for c in COMPRESSIONS for st in (1, 2, 3)]
+            w += [(1, p, c, st) for p in (1, 3) for c in (1, 2, 4) for st in (1, 2, 3)]
+            wo = [-130, -2, -1, 0, 1, 2, 10]
+        for hv, p, c, st in w:
+            yield ["c19.wiring", wo, hv, p, c, st]
 
 
 PROP = C19()
